@@ -868,6 +868,55 @@ theorem trans_C16_C20_Stop_twice_v1 (phase : Nat) (hasStop : Bool) :
   rw [trans_C16_C20_Stop_v1]
   by_cases h : phase = 3 <;> simp [h] <;> exact trans_C16_C20_Stop_v1 3 hasStop
 
+/-! ### SharedResource v2: live reconfiguration -/
+
+/-- `SetSharedCapacity(v)`: an error (and no change at all) without a lease manager; otherwise the new value is
+stored and ONE re-provisioning request is left for the loop - a request already pending is not doubled, and the
+value the loop will read is the latest one (it re-reads `sharedCapacity`, the request carries no value) -/
+theorem trans_C17_SetSharedCapacity_v2 (sh : Int) (lm : Bool) (pending v : Nat) (hp : pending ≤ 1) :
+    v2_sr_SetSharedCapacity { sharedCapacity := sh, leaseManager := lm, provision := pending } v =
+      (if lm then ({ sharedCapacity := v, leaseManager := true, provision := 1 }, "")
+       else ({ sharedCapacity := sh, leaseManager := false, provision := pending }, "SharedCapacityNotProvisioned")) := by
+  have : pending = 0 ∨ pending = 1 := by omega
+  cases lm <;> rcases this with h | h <;> simp [v2_sr_SetSharedCapacity, v2_sr_scheduleProvision, h]
+
+/-- two calls in a row: the second value wins, one request is pending -/
+theorem trans_C09_C17_SetSharedCapacity_twice_v2 (sh : Int) (pending v w : Nat) (hp : pending ≤ 1) :
+    (v2_sr_SetSharedCapacity (v2_sr_SetSharedCapacity { sharedCapacity := sh, leaseManager := true, provision := pending } v).1 w).1
+      = { sharedCapacity := w, leaseManager := true, provision := 1 } := by
+  rw [trans_C17_SetSharedCapacity_v2 sh true pending v hp]
+  simp only [if_true]
+  have := trans_C17_SetSharedCapacity_v2 v true 1 w (by omega)
+  simp only [if_true] at this
+  exact congrArg Prod.fst this
+
+/-- re-provisioning swaps in a list of exactly the new partition count that agrees with the old one wherever both
+have a slot: held partitions that still exist stay counted, dropped ones are gone, new ones start free -/
+theorem trans_C07_C17_reprovision_v2 (r : T_v2_sharedResource) :
+    (v2_sr_reprovision r).2 = v2_sr_partitionCount r ∧
+    (v2_sr_reprovision r).1.partitions.length = (v2_sr_partitionCount r).toNat ∧
+    (∀ i, i < (v2_sr_partitionCount r).toNat →
+        (v2_sr_reprovision r).1.partitions.getD i false = r.partitions.getD i false) ∧
+    (v2_sr_reprovision r).1.factor = r.factor ∧ (v2_sr_reprovision r).1.sharedCapacity = r.sharedCapacity ∧
+    (v2_sr_reprovision r).1.target = r.target := by
+  simp only [v2_sr_reprovision, v2_sr_partitionCount]
+  generalize hc : (if decide (goCeilDiv r.sharedCapacity r.factor > 500) = true then (500 : Int)
+      else goCeilDiv r.sharedCapacity r.factor) = cnt
+  refine ⟨by trivial, ?_, ?_, by trivial, by trivial, by trivial⟩
+  · simp only [List.length_append, List.length_take, List.length_drop, List.length_replicate]; omega
+  · intro i hi
+    simp only [List.getD_eq_getElem?_getD, List.length_replicate]
+    by_cases h : i < r.partitions.length
+    · rw [List.getElem?_append_left (by simp [List.length_take]; omega)]
+      simp [List.getElem?_take, hi]
+    · have hlen : (List.take cnt.toNat r.partitions).length = r.partitions.length := by
+        simp [List.length_take]; omega
+      rw [List.getElem?_append_right (by omega), hlen]
+      have : r.partitions[i]? = none := by simp [List.getElem?_eq_none]; omega
+      rw [this]
+      simp [List.getElem?_drop, List.getElem?_replicate]
+      split <;> rfl
+
 /-! ### non-vacuity: the translated functions on concrete values (also a readable trace of what they compute) -/
 
 example : v2_incTarget ⟨7⟩ 5 = ⟨12⟩ ∧ v2_incTarget ⟨7⟩ (-5) = ⟨2⟩ ∧ v2_incTarget ⟨7⟩ (-9) = ⟨0⟩ ∧ v2_incTarget ⟨7⟩ 0 = ⟨7⟩ := by decide
